@@ -31,6 +31,8 @@ class _IntMeta(type):
         return isinstance(obj, (_real_int, SInt))
 
     def __call__(cls, x=0, *a, **kw):
+        if hasattr(x, "__symx_int__"):
+            return x.__symx_int__()
         if isinstance(x, SInt):
             return x
         if isinstance(x, SReal):
@@ -89,6 +91,8 @@ class _FloatMeta(type):
         return isinstance(obj, (_real_float, SReal))
 
     def __call__(cls, x=0.0):
+        if hasattr(x, "__symx_float__"):
+            return x.__symx_float__()
         if isinstance(x, SReal):
             return x
         if isinstance(x, (SInt, SBool)):
@@ -106,6 +110,8 @@ _UF_F32 = z3.Function("ieee754_f32_of_u32", z3.IntSort(), z3.RealSort())
 
 
 def round_shim(x, ndigits=None):
+    if hasattr(x, "__symx_round__"):
+        return x.__symx_round__(ndigits)
     if isinstance(x, SReal):
         c = concrete_of(x)
         if c is not None:
